@@ -86,6 +86,12 @@ CHECKS = {
         "and the literal six-character sequences \\u003c \\u003e \\u0026 (as values, keys and nested) and checks unescape(escape(s)) = s, safe output free of < > &, default output holding them literally; the acceptance rule of NewMapJson is enumerated over "
         "[ws] value [ws] [trailer] inputs. The harness compares Json bytes exactly, validity, decode-back equality for Json/JsonIndent, writer forms and Copy, and NewMapJson's acceptance and value against encoding/json on the same bytes (JsonUseNumber on/off).",
    ref="DESIGN.md section 4, C06", technique="TLA+ character-level JSON string codec (TLC), byte-exact spec->code replay, encoding/json as oracle"),
+ "C14": dict(
+   text="TLA+ specification MxjCast of the cast decision chain over classification predicates (denotes int64 / uint64 / float64 / NaN-or-Inf / bool) supplied by a constants module that the harness generates from strconv on every run; "
+        "TLC checks for every catalogue text (64-bit boundaries, decimal/exponent/hex floats, overflow, every case and sign variant of nan/inf/infinity, ParseBool's accepted and rejected spellings, ordinary text) and all 2^6 combinations of "
+        "cast flag, int, float, bool, NaN/Inf and skip-tag options: no cast without the flag, never NaN/Inf unless asked, the chosen kind is one the text denotes. Every (text, combination) is replayed in element, attribute and text-key position "
+        "through NewMapXml, NewMapXmlSeq and the internal cast (hook), and Map.Json() must succeed whenever CastNanInf is off.",
+   ref="DESIGN.md section 4, C14", technique="TLA+ decision-chain spec over strconv-generated classification, exhaustive catalogue x options in TLC, spec->code replay"),
 }
 NOT_YET = "machinery for this property is not built yet in this round (design in DESIGN.md section 4); no claim is made"
 
